@@ -56,4 +56,18 @@ def main(argv: list[str] | None = None) -> int:
 
 
 if __name__ == "__main__":
-    sys.exit(main())
+    rc = main()
+    sys.stdout.flush()
+    sys.stderr.flush()
+    import threading
+    stuck = [t for t in threading.enumerate() if t is not threading.main_thread() and not t.daemon and t.is_alive()]
+    if stuck:
+        # a thread of the code under test that never ends (e.g. a profiler that is never stopped) must not keep the check
+        # from terminating with its verdict: run the exit handlers (multiprocessing children etc.) and leave
+        import atexit
+        import os
+        try:
+            atexit._run_exitfuncs()  # noqa: SLF001
+        finally:
+            os._exit(rc)
+    sys.exit(rc)
